@@ -30,6 +30,7 @@ pub trait Bez: Copy {
     fn eval(self, t: Q) -> Vec<Q>;
     fn deriv(self, t: Q) -> Vec<Q>;
     fn split2(self, t: Q) -> [Self; 2];
+    fn ntan(self, t: Q) -> Vec<Q>;
 }
 macro_rules! bez {
     ($B:ident, $deg:expr, $dim:expr, $mk:ident, $ev:ident, [$($f:ident),+]) => {
@@ -40,6 +41,7 @@ macro_rules! bez {
             fn eval(self, t: Q) -> Vec<Q> { self.evaluate(t).into_iter().collect() }
             fn deriv(self, t: Q) -> Vec<Q> { self.evaluate_derivative(t).into_iter().collect() }
             fn split2(self, t: Q) -> [Self; 2] { self.split(t) }
+            fn ntan(self, t: Q) -> Vec<Q> { self.normalized_tangent(t).into_iter().collect() }
         }
     };
 }
@@ -59,6 +61,28 @@ fn basics<B: Bez>(d: &mut Drv) {
     d.call("bez_eval", arg, || evs(&b.eval(t)));
     d.call("bez_deriv", arg, || evs(&b.deriv(t)));
     d.call("bez_split", arg, || { let [f, s] = b.split2(t); json!([pts(&f.to_pts()), pts(&s.to_pts())]) });
+    // normalized tangent: the last control point is solved for so that the derivative at t is a chosen vector D of
+    // rational length `len` (a scaled Pythagorean triple); the specification checks |obs| = 1 and obs * len = D
+    let t = Q::frac([1, 2, 3, 4, 5, 6, 7, 8, 10, -2][d.pick(10)], 8);
+    let (dv, len) = loop {
+        let (v, l) = pyth3(&mut d.rng);
+        let v: Vec<Q> = v[..B::DIM].to_vec();
+        if B::DIM == 3 { break (v, l); }
+        if let Some(l2) = (v[0] * v[0] + v[1] * v[1]).sqrt_exact() { if l2 != Q::int(0) { break (v, l2); } }
+    };
+    let mut c = rand_pts(d, B::DEG + 1, B::DIM);
+    let u = Q::int(1) - t;
+    for k in 0..B::DIM {
+        if B::DEG == 2 {
+            // D = 2[(1-t)(c1-c0) + t(c2-c1)]
+            c[2][k] = c[1][k] + (dv[k] / Q::int(2) - u * (c[1][k] - c[0][k])) / t;
+        } else {
+            // D = 3[(1-t)^2 (c1-c0) + 2t(1-t)(c2-c1) + t^2 (c3-c2)]
+            c[3][k] = c[2][k] + (dv[k] / Q::int(3) - u * u * (c[1][k] - c[0][k]) - Q::int(2) * t * u * (c[2][k] - c[1][k])) / (t * t);
+        }
+    }
+    let b = B::from_pts(&c);
+    d.call("bez_tangent", || json!({"ty": B::NAME, "pts": pts(&c), "t": ev(t), "len": ev(len)}), || evs(&b.ntan(t)));
 }
 
 macro_rules! conv2 {
